@@ -84,6 +84,9 @@ void yield();                        // explicit scheduling point
 uint64_t seq();                      // global, strictly increasing event sequence number (bumps it)
 uint64_t steps();
 int  threads_alive();
+// true when simulated thread `tid` is parked in a blocking call (wait call, condition, join) that nothing has made ready yet:
+// it cannot run until something else happens or its deadline passes
+bool thread_idle(int tid);
 
 int64_t now_ns();
 inline int64_t now_ms() { return now_ns() / 1000000; }
